@@ -186,6 +186,88 @@ class TlsOrigin(threading.Thread):
             pass
 
 
+class BioTls:
+    """A TLS client over ssl.MemoryBIO, so that the harness decides how the TLS records travel: every outgoing flight is cut
+    in the middle of a record (inside the 5-byte record header, right after it, or before the last byte) and the parts are
+    sent as separate TCP segments with a pause in between, so the proxy's loop wakes up holding an incomplete record."""
+
+    def __init__(self, sock: socket.socket, ctx: ssl.SSLContext, host: str, rng: random.Random, split: bool = True) -> None:
+        self.sock = sock
+        self.inc, self.out = ssl.MemoryBIO(), ssl.MemoryBIO()
+        self.obj = ctx.wrap_bio(self.inc, self.out, server_hostname=host)
+        self.rng = rng
+        self.split = split
+        self.splits = 0
+        self.timeout = 20.0
+        sock.setsockopt(socket.IPPROTO_TCP, socket.TCP_NODELAY, 1)
+        self._handshake()
+
+    def settimeout(self, t: float) -> None:
+        self.timeout = t
+
+    def _flush(self, split: bool) -> None:
+        data = self.out.read()
+        if not data:
+            return
+        self.sock.settimeout(self.timeout)
+        if split and len(data) > 6:
+            cut = self.rng.choice([self.rng.randint(1, 4), 5, len(data) - 1, self.rng.randint(1, len(data) - 1)])
+            self.sock.sendall(data[:cut])
+            time.sleep(0.03)        # the proxy reads what is there: an incomplete TLS record
+            self.sock.sendall(data[cut:])
+            self.splits += 1
+        else:
+            self.sock.sendall(data)
+
+    def _fill(self) -> bool:
+        self.sock.settimeout(self.timeout)
+        d = self.sock.recv(65536)
+        if not d:
+            self.inc.write_eof()
+            return False
+        self.inc.write(d)
+        return True
+
+    def _handshake(self) -> None:
+        while True:
+            try:
+                self.obj.do_handshake()
+                self._flush(False)
+                return
+            except ssl.SSLWantReadError:
+                self._flush(False)
+                if not self._fill():
+                    raise ssl.SSLError('EOF during handshake')
+
+    def sendall(self, data: bytes) -> None:
+        self.obj.write(data)
+        self._flush(self.split)
+
+    def recv(self, n: int) -> bytes:
+        while True:
+            try:
+                return self.obj.read(n)
+            except ssl.SSLWantReadError:
+                if not self._fill():
+                    return b''
+            except ssl.SSLZeroReturnError:
+                return b''
+
+    def getpeercert(self, binary: bool = False) -> Any:
+        return self.obj.getpeercert(binary)
+
+    def close(self) -> None:
+        try:
+            self.obj.unwrap()
+            self._flush(False)
+        except Exception:
+            pass
+        try:
+            self.sock.close()
+        except Exception:
+            pass
+
+
 def connect_through_proxy(flags: Any, host: str, port: int) -> Tuple[socket.socket, Any, threading.Thread, bytes]:
     """A client connection handled by the product's thread-per-connection path; sends CONNECT, returns after the reply head."""
     ls = socket.socket(socket.AF_INET, socket.SOCK_STREAM)
@@ -428,6 +510,8 @@ def run_case(case: Dict[str, Any]) -> Dict[str, Any]:
                             bad('origin-data-relayed-from-unverified-origin', client_got=head[:120])
                         else:
                             obs['refusals_checked'] = obs.get('refusals_checked', 0) + 1
+                            if conn_no > 0:
+                                obs['repeat_refusals_checked'] = obs.get('repeat_refusals_checked', 0) + 1
                     obs['connect_refused'] = obs.get('connect_refused', 0) + 1
                     a.close()
                     continue
@@ -443,10 +527,18 @@ def run_case(case: Dict[str, Any]) -> Dict[str, Any]:
                         cctx.verify_mode = ssl.CERT_NONE
                 else:
                     cctx.load_verify_locations(_P['ica'][1])
-                tls = None
+                if not should_relay:
+                    # bad upstream, verification on.  The property protects every client, in particular one that does not
+                    # verify what it is presented (it would happily talk through an opaque tunnel to the bad origin).
+                    cctx.check_hostname = False
+                    cctx.verify_mode = ssl.CERT_NONE
+                tls: Any = None
                 hs_err = None
                 try:
-                    tls = cctx.wrap_socket(a, server_hostname=host)
+                    if case.get('record_split'):
+                        tls = BioTls(a, cctx, host, rng)
+                    else:
+                        tls = cctx.wrap_socket(a, server_hostname=host)
                 except (ssl.SSLError, OSError) as e:
                     hs_err = '%s:%s' % (type(e).__name__, getattr(e, 'verify_message', '') or getattr(e, 'reason', '') or str(e)[:80])
                 obs['client_handshakes_attempted'] = obs.get('client_handshakes_attempted', 0) + 1
@@ -468,6 +560,8 @@ def run_case(case: Dict[str, Any]) -> Dict[str, Any]:
                         bad('origin-data-relayed-from-unverified-origin', client_got=got[:120])
                     if not plain and not got:
                         obs['refusals_checked'] = obs.get('refusals_checked', 0) + 1
+                        if conn_no > 0:
+                            obs['repeat_refusals_checked'] = obs.get('repeat_refusals_checked', 0) + 1
                     if tls is not None:
                         tls.close()
                     else:
@@ -545,6 +639,8 @@ def run_case(case: Dict[str, Any]) -> Dict[str, Any]:
                     if r['hd'].get(b'host') != host.encode():
                         bad('host-header-changed', got=r['hd'].get(b'host'))
                     obs['origin_requests_checked'] = obs.get('origin_requests_checked', 0) + 1
+                if isinstance(tls, BioTls) and diff is None:
+                    obs['split_tls_records_sent'] = obs.get('split_tls_records_sent', 0) + tls.splits
                 try:
                     tls.close()
                 except Exception:
@@ -603,7 +699,8 @@ def cases(tier: str, seed: int):
                         yield {'seed': seed, 'i': i, 'host': hostkind, 'situation': situation, 'insecure': insecure, 'optout': optout,
                                'requests': rng.choice([1, 2, 3]), 'resp_size': rng.choice([0, 50, 3000, 300000]) if situation == 'good' or insecure else 50,
                                'req_body': rng.choice([0, 20, 5000]), 'cuts': rng.choice([0, 1, 5]), 'client_pace': rng.choice(['eager', 'slow']),
-                               'connections': rng.choice([1, 2, 2]), 'warm_name': hostkind == 'name' and situation == 'good' and rng.random() < 0.3,
+                               'connections': rng.choice([1, 2, 2]) if situation == 'good' else rng.choice([2, 3]),
+                               'record_split': rng.random() < 0.4, 'warm_name': hostkind == 'name' and situation == 'good' and rng.random() < 0.3,
                                'shared_cert': hostkind == 'name' and situation == 'good'}
 
 
@@ -612,7 +709,8 @@ def cases(tier: str, seed: int):
 def floors(tier: str) -> Dict[str, int]:
     return {'live_batches': 3, 'live_verified_handshakes': 30, 'verified_handshakes': 60, 'refusals_checked': 45, 'optout_tunnels_checked': 30, 'responses_checked': 120,
             'origin_requests_checked': 40, 'warm_cache_connections': 10, 'verified:name': 3, 'verified:punycode': 3,
-            'shared_certificate_second_host_checked': 2, 'situation:self-signed': 5, 'situation:wrong-name': 5, 'situation:expired': 5, 'situation:untrusted-ca': 5}
+            'shared_certificate_second_host_checked': 2, 'situation:self-signed': 5, 'situation:wrong-name': 5, 'situation:expired': 5, 'situation:untrusted-ca': 5,
+            'repeat_refusals_checked': 20, 'split_tls_records_sent': 20}
 
 
 if __name__ == '__main__':
